@@ -130,8 +130,15 @@ def run(ctx):
         if variant in ("tmin", "both") and t_before <= 30 * dt:
             kw_win, variant = {}, "none"
             tt[np.abs(tt) > 8] = 0.0
+        t_start = 0.0
+        if variant == "none" and _ % 8 == 0:
+            # pre-trigger samples and a window bound exactly at the trigger (0.0): the breakthrough before zero is excluded
+            npre = 200
+            tt = np.concatenate([rng.normal(size=(len(tx), npre)) * 0.05, tt], axis=1)
+            tt[:, int(rng.integers(5, npre - 5))] = 9.0
+            t_start, kw_win, variant = -npre * dt, {"tmin": [0.0, 0, -0.0][int(rng.integers(0, 3))]}, "tmin_exactly_zero"
         ctx.count("frontwall_window:" + variant)
-        fr = fixtures.make_frame(tt, 0.0, dt, tx, rx, probe, None)
+        fr = fixtures.make_frame(tt, t_start, dt, tx, rx, probe, None)
         couplant = arim.Material(c, density=1000.0, state_of_matter="liquid")
         try:
             z, th, times = measurement.find_probe_loc_from_frontwall(fr, couplant, **kw_win)
